@@ -45,10 +45,10 @@ def IsWalk (E : Nat → Nat → Prop) : List Nat → Prop
 def WalkFromTo (E : Nat → Nat → Prop) (s v : Nat) (p : List Nat) : Prop :=
   p.head? = some s ∧ p.getLast? = some v ∧ IsWalk E p
 
-/-- there is a walk of exactly `k` edges -/
-inductive WalkLen (E : Nat → Nat → Prop) : Nat → Nat → Nat → Prop
-  | zero (u : Nat) : WalkLen E 0 u u
-  | succ {k u v w : Nat} : WalkLen E k u v → E v w → WalkLen E (k + 1) u w
+/-- `WalkLen E u k v`: there is a walk of exactly `k` edges from `u` to `v` -/
+inductive WalkLen (E : Nat → Nat → Prop) (u : Nat) : Nat → Nat → Prop
+  | zero : WalkLen E u 0 u
+  | succ {k v w : Nat} : WalkLen E u k v → E v w → WalkLen E u (k + 1) w
 
 /-- no closed walk with at least one edge -/
 def Acyclic (E : Nat → Nat → Prop) : Prop := ∀ u v, E u v → ¬ Reach E v u
@@ -61,14 +61,49 @@ def IsCycle (E : Nat → Nat → Prop) (c : List Nat) : Prop :=
 def IsPermOfRange (n : Nat) (order : List Nat) : Prop :=
   order.Nodup ∧ ∀ v, v ∈ order ↔ v < n
 
-/-- the index of `v` in `order` -/
-def indexIn (order : List Nat) (v : Nat) : Nat := order.idxOf v
-
-/-- topological order: every arc goes forward -/
+/-- topological order: for every arc `u → v`, `u` occurs strictly before `v` -/
 def RespectsArcs (E : Nat → Nat → Prop) (order : List Nat) : Prop :=
-  ∀ u v, E u v → indexIn order u < indexIn order v
+  ∀ u v, E u v → ∃ l1 l2 l3, order = l1 ++ u :: (l2 ++ v :: l3)
+
+/-! ### graphs given as vertex count and edge list -/
+
+/-- one `AddEdge` call: endpoints as given by the caller (any `int`), weight (0 for the unweighted types) -/
+structure EdgeIn where
+  u : Int
+  v : Int
+  w : Int := 0
+  deriving Repr
+
+/-- `NewDirected(n, es…)` / `NewWeightedDirected(n, es…)` -/
+def buildDirected (n : Nat) (es : List EdgeIn) : Graph :=
+  es.foldl (fun g e => g.addEdgeDirected e.u e.v e.w) (Graph.new n)
+
+/-- `NewUndirected(n, es…)` / `NewWeightedUndirected(n, es…)` -/
+def buildUndirected (n : Nat) (es : List EdgeIn) : Graph :=
+  es.foldl (fun g e => g.addEdgeUndirected e.u e.v e.w) (Graph.new n)
+
+/-- the directed edge relation of an edge list on `n` vertices (edges with an endpoint outside `[0,n)` are
+ignored, as `AddEdge` does) -/
+def DirE (n : Nat) (es : List EdgeIn) (a b : Nat) : Prop :=
+  ∃ e ∈ es, 0 ≤ e.u ∧ e.u < (n : Int) ∧ 0 ≤ e.v ∧ e.v < (n : Int) ∧ (a : Int) = e.u ∧ (b : Int) = e.v
+
+/-- the undirected edge relation -/
+def UndirE (n : Nat) (es : List EdgeIn) (a b : Nat) : Prop := DirE n es a b ∨ DirE n es b a
 
 /-! ### weighted -/
+
+/-- directed graphs: the stored edge of an entry of `adj[u]` is `u → to` (what `AddEdge` of the directed
+types establishes) -/
+def Graph.DWF (g : Graph) : Prop := ∀ u x, x ∈ g.adj.getD u [] → x.e.a = u ∧ x.e.b = x.to
+
+/-- no negative weight -/
+def Graph.NonNeg (g : Graph) : Prop := ∀ u x, x ∈ g.adj.getD u [] → 0 ≤ x.e.w
+
+/-- the undirected edge `e` joins `w` and `p` -/
+def Joins (e : Edge) (w p : Nat) : Prop := (e.a = w ∧ e.b = p) ∨ (e.b = w ∧ e.a = p)
+
+/-- undirected graphs: the stored edge of an entry of `adj[u]` joins `u` and `to` -/
+def Graph.UWF (g : Graph) : Prop := ∀ u x, x ∈ g.adj.getD u [] → Joins x.e u x.to
 
 /-- the stored edge `e` leads from `u` to `v` in `g` -/
 def Graph.HasEdge (g : Graph) (u v : Nat) (e : Edge) : Prop := (⟨v, e⟩ : Arc) ∈ g.adj.getD u []
@@ -83,6 +118,17 @@ def walkWeight (p : List Edge) : Int := (p.map (·.w)).sum
 /-- `d` is the least weight of a walk from `s` to `v` -/
 def IsShortestDist (g : Graph) (s v : Nat) (d : Int) : Prop :=
   (∃ p, IsEdgeWalk g s v p ∧ walkWeight p = d) ∧ ∀ p, IsEdgeWalk g s v p → d ≤ walkWeight p
+
+/-- `edgeTo[w]` of a `MinimumSpanningTree` (the zero edge outside the array) -/
+def MST.par (m : MST) (w : Nat) : Edge := m.edgeTo.getD w Edge.zero
+
+/-- `edgeTo[w]` is a reported tree edge (not the zero edge), it joins `w` with `p`, and it is stored in
+`adj[p]` as an edge to `w`: `p` is the parent of `w` in the forest -/
+def TLink (g : Graph) (m : MST) (w p : Nat) : Prop :=
+  m.par w ≠ Edge.zero ∧ Joins (m.par w) w p ∧ g.HasEdge p w (m.par w)
+
+/-- joined by a tree edge, in either direction -/
+def TArc (g : Graph) (m : MST) (a b : Nat) : Prop := TLink g m a b ∨ TLink g m b a
 
 /-! ## executable certificates -/
 
@@ -109,31 +155,25 @@ def Graph.preds (g : Graph) : Array (List Nat) :=
     (fun acc u => (g.adj.getD u []).foldl (fun acc x => acc.modify x.to (u :: ·)) acc)
     (Array.replicate g.n [])
 
+/-- class `i` of an id table is strongly connected: it has a least vertex `r`, and `r` reaches every member
+and is reached by every member through vertices of the class -/
+def sccClassOK (n : Nat) (succs preds : Array (List Nat)) (id : Array Nat) (i : Nat) : Bool :=
+  match (List.range n).find? (fun v => id.getD v 0 == i) with
+  | none => false
+  | some r =>
+    let F := closure succs (fun w => id.getD w 0 == i) r
+    let B := closure preds (fun w => id.getD w 0 == i) r
+    (List.range n).all fun v => id.getD v 0 != i || (F.getD v false && B.getD v false)
+
 /-- **SCC certificate.**  (a) ids are `< count`; (b) no arc goes from a smaller to a larger id;
-(c) within every class, the first vertex of the class reaches every member and is reached by every member
-through vertices of the class. -/
+(c) every class `i < count` is inhabited and strongly connected (`sccClassOK`). -/
 def sccCertificate (g : Graph) (c : Components) : Bool :=
   let id := c.id
   let n := g.n
   id.size == n &&
   (List.range n).all (fun v => id.getD v 0 < c.count) &&
   (List.range n).all (fun u => (g.adj.getD u []).all fun x => id.getD x.to 0 ≤ id.getD u 0) &&
-  (let succs := g.succs
-   let preds := g.preds
-   -- root of a class = its least vertex
-   let roots : Array (Option Nat) :=
-     (List.range n).foldl (fun acc v => if (acc.getD (id.getD v 0) none).isNone then acc.set! (id.getD v 0) (some v) else acc)
-       (Array.replicate c.count none)
-   let rootList := roots.toList.filterMap (·)
-   -- fwd[v] / bwd[v]: reached from / reaches the root of its own class inside the class
-   let mark := fun (adj : Array (List Nat)) =>
-     rootList.foldl (fun (acc : Array Bool) r =>
-        let cl := closure adj (fun w => id.getD w 0 == id.getD r 0) r
-        (List.range n).foldl (fun acc v => if cl.getD v false then acc.set! v true else acc) acc)
-       (Array.replicate n false)
-   let fwd := mark succs
-   let bwd := mark preds
-   (List.range n).all fun v => fwd.getD v false && bwd.getD v false)
+  (List.range c.count).all (sccClassOK n g.succs g.preds id)
 
 /-- number of classes of the symmetric closure of `adj` and a class representative per vertex -/
 def undirectedComponents (n : Nat) (adj : Array (List Nat)) : Nat × Array Nat :=
